@@ -34,7 +34,7 @@ CONSTANTS
   Proc,       \* process slots
   Seed,       \* PYTHONHASHSEED values a process can be spawned with
   Sig,        \* UFL signatures (abstract)
-  Route,      \* Nat: number of extra objects a way of building the same form creates
+  Route,      \* Nat: throw-away objects made before each object of the form (same form, other ids)
   Opt,        \* option sets
   Vis, Hid,   \* evaluation-point data: what a lossy rendering (repr) keeps / drops
   Flag,       \* compile-flag variants (argument list + debug flag)
@@ -206,7 +206,4 @@ WriteOnce == [][/\ \A k \in DOMAIN text : k \in DOMAIN text' /\ text'[k] = text[
 \* used to *generate* histories: print every complete one (TLC evaluates it as an invariant)
 EmitHist == (nev = MaxEvents) => PrintT(<<"HIST", hist>>)
 
-\* hidden state is really exercised (vacuity guards, refuted by TLC on purpose in the harness)
-NeverTwoSeedsSameKey ==
-  ~(\E p, q \in Proc : alive[p] /\ alive[q] /\ seed[p] # seed[q] /\ done[p] > 0 /\ done[q] > 0)
 =============================================================================
